@@ -60,7 +60,7 @@ DoReset ==
   /\ cpc' = "loop" /\ got' = <<0, 0>>
   /\ recvErr' = 0 /\ errs' = 0 /\ ret' = TRUE
   /\ disk' = {} /\ listed' = {}
-  /\ hpc' = "idle" /\ exitEarly' = FALSE /\ exited' = FALSE
+  /\ hpc' = "idle" /\ exitEarly' = FALSE /\ ntfClosed' = FALSE /\ exited' = FALSE
   /\ started' = [w \in W |-> 0]
   /\ accb' = 0 /\ accm' = 0 /\ seplen' = R.seplen /\ hstart' = FALSE
   /\ nrun' = nrun + 1
@@ -72,7 +72,7 @@ TInit ==
   /\ closed = [w \in W |-> TRUE] /\ rdrop = [w \in W |-> FALSE]
   /\ live = {} /\ pending = [w \in W |-> 0] /\ fi = [w \in W |-> TRUE] /\ fic = TRUE
   /\ np = [w \in W |-> 0] /\ cpc = "done" /\ got = <<0, 0>> /\ recvErr = 0 /\ errs = 0 /\ ret = TRUE
-  /\ disk = {} /\ listed = {} /\ hpc = "idle" /\ exitEarly = FALSE /\ exited = TRUE
+  /\ disk = {} /\ listed = {} /\ hpc = "idle" /\ exitEarly = FALSE /\ ntfClosed = FALSE /\ exited = TRUE
   /\ started = [w \in W |-> 0] /\ accb = 0 /\ accm = 0 /\ seplen = 0 /\ hstart = FALSE
 
 TReset == Ev("Reset") /\ Adv /\ DoReset
@@ -106,6 +106,8 @@ TSendDone ==
 TWStart == Ev("WStart") /\ Adv /\ TW \in W /\ wi[TW] = 0 /\ Stutter /\ TUNCH
 TSpawn == Ev("Spawn") /\ Adv /\ PW \in live /\ Stutter /\ TUNCH
 TTempCreate == Ev("TempCreate") /\ Adv /\ WCreate(TW) /\ TUNCH
+\* silent: creation refused after the handler closed the list (the worker then reports an open error)
+TCreateRefused(w) == More /\ WCreateRefused(w) /\ UNCHANGED l /\ TUNCH
 TTempRegister == Ev("TempRegister") /\ Adv /\ WRegister(TW) /\ TUNCH
 TReaderDrop == Ev("ReaderDrop") /\ Adv /\ WDrop(TW) /\ TUNCH
 TWReturn ==
@@ -191,6 +193,7 @@ TPlanAbandoned == Ev("PlanAbandoned") /\ Adv /\ Stutter /\ TUNCH
 THStart == Ev("HStart") /\ Adv /\ Sigint /\ hstart' = TRUE /\ UNCHANGED <<started, nrun, accb, accm, seplen>>
 THLock == More /\ hstart /\ HLock /\ hstart' = FALSE /\ UNCHANGED <<l, started, nrun, accb, accm, seplen>>
 THCleared == Ev("HCleared") /\ Adv /\ HClear /\ TUNCH
+THNtfLock == More /\ HNtfLock /\ UNCHANGED l /\ TUNCH
 THRemoved == Ev("HRemoved") /\ Adv /\ HRemove /\ R.n = Cardinality(listed) /\ TUNCH
 THFlag == Ev("HFlag") /\ Adv /\ HFlag /\ TUNCH
 
@@ -201,10 +204,10 @@ TAfterExit == More /\ exited /\ R.ev # "Reset" /\ Adv /\ Stutter /\ TUNCH
 TNext ==
   \/ TReset \/ TAfterExit
   \/ TSendStart \/ (\E w \in W : TEnqueue(w)) \/ TSendDone \/ TWStart \/ TSpawn
-  \/ TTempCreate \/ TTempRegister \/ TReaderDrop \/ TWReturn
+  \/ TTempCreate \/ TTempRegister \/ (\E w \in W : TCreateRefused(w)) \/ TReaderDrop \/ TWReturn
   \/ TEnterSel \/ TDequeue \/ TDisc \/ TRecv \/ TSelNone \/ TFiAll \/ TFirstPrint
   \/ TPrint \/ TPrinted \/ TAddNl \/ TRemove \/ TLoopExit \/ TTotals \/ TReturn \/ TExitEarly \/ TMainExit
-  \/ TSigRaise \/ TPlanAbandoned \/ THStart \/ THLock \/ THCleared \/ THRemoved \/ THFlag
+  \/ TSigRaise \/ TPlanAbandoned \/ THStart \/ THLock \/ THCleared \/ THNtfLock \/ THRemoved \/ THFlag
 
 TSpec == TInit /\ [][TNext]_tvars
 
